@@ -75,20 +75,32 @@ def vecRetainMatching (all : Bool) (n : Nat) (d : List Quad) (p : Pat) : List Qu
 /-- the terms of a quad in the order `subjects … variables` visit them -/
 def comps (n : Nat) (q : Quad) : List Term := if n = 4 then Store.spog q else [q.s, q.p, q.o]
 
-/-- `subjects` `predicates` `objects` `graph_names` `iris` `blank_nodes` `literals` `variables`
-`quoted_triples` -/
-def enumOf (n : Nat) (which : String) (qs : List Quad) : Option (List Term) :=
-  match which with
-  | "subjects" => some (qs.map (·.s))
-  | "predicates" => some (qs.map (·.p))
-  | "objects" => some (qs.map (·.o))
-  | "graphs" => some (qs.filterMap (·.g))
-  | "iris" => some ((qs.flatMap (comps n)).flatMap atoms |>.filter (fun t => t.kind == .iri))
-  | "bnodes" => some ((qs.flatMap (comps n)).flatMap atoms |>.filter (fun t => t.kind == .bnode))
-  | "literals" => some ((qs.flatMap (comps n)).flatMap atoms |>.filter (fun t => t.kind == .literal))
-  | "vars" => some ((qs.flatMap (comps n)).flatMap atoms |>.filter (fun t => t.kind == .variable))
-  | "qtriples" => some ((qs.flatMap (comps n)).flatMap constituents |>.filter (fun t => t.kind == .triple))
+/-- the nine enumerating default methods: `subjects` `predicates` `objects` `graph_names` `iris`
+`blank_nodes` `literals` `variables` `quoted_triples` -/
+inductive EnumKind | subjects | predicates | objects | graphs | iris | bnodes | literals | vars | qtriples
+  deriving Repr, DecidableEq, Inhabited
+
+def enumTerms (n : Nat) (k : EnumKind) (qs : List Quad) : List Term :=
+  match k with
+  | .subjects => qs.map (·.s)
+  | .predicates => qs.map (·.p)
+  | .objects => qs.map (·.o)
+  | .graphs => qs.filterMap (·.g)
+  | .iris => ((qs.flatMap (comps n)).flatMap atoms).filter (fun t => t.kind == .iri)
+  | .bnodes => ((qs.flatMap (comps n)).flatMap atoms).filter (fun t => t.kind == .bnode)
+  | .literals => ((qs.flatMap (comps n)).flatMap atoms).filter (fun t => t.kind == .literal)
+  | .vars => ((qs.flatMap (comps n)).flatMap atoms).filter (fun t => t.kind == .variable)
+  | .qtriples => ((qs.flatMap (comps n)).flatMap constituents).filter (fun t => t.kind == .triple)
+
+def EnumKind.ofString : String → Option EnumKind
+  | "subjects" => some .subjects | "predicates" => some .predicates | "objects" => some .objects
+  | "graphs" => some .graphs | "iris" => some .iris | "bnodes" => some .bnodes
+  | "literals" => some .literals | "vars" => some .vars | "qtriples" => some .qtriples
   | _ => none
+
+/-- protocol entry point: enumeration by name -/
+def enumOf (n : Nat) (which : String) (qs : List Quad) : Option (List Term) :=
+  (EnumKind.ofString which).map (fun k => enumTerms n k qs)
 
 /-! ### `from_quad_source` / `from_triple_source` of the in-memory stores -/
 
@@ -98,5 +110,9 @@ def collect (shape : Shape) (max : Nat) (qs : List Quad) : Option St :=
   match Store.insertAll (St.new shape max) qs 0 with
   | (s, some _) => some s
   | (_, none) => none
+
+/-- `<usize as Index>::MAX` on the 64-bit targets the harness runs on (the extractor checks that
+`impl Index for usize` still says `MAX = usize::MAX`) -/
+def maxUsize : Nat := 18446744073709551615
 
 end SophiaModel.StdStore
